@@ -21,11 +21,11 @@ def fft_grad(get_args, fft_fun, ans, x, *args, **kwargs):
 defvjp(fft, lambda *args, **kwargs: fft_grad(get_fft_args, fft, *args, **kwargs))
 defvjp(ifft, lambda *args, **kwargs: fft_grad(get_fft_args, ifft, *args, **kwargs))
 
-defvjp(fft2, lambda *args, **kwargs: fft_grad(get_fft_args, fft2, *args, **kwargs))
-defvjp(ifft2, lambda *args, **kwargs: fft_grad(get_fft_args, ifft2, *args, **kwargs))
+defvjp(fft2, lambda *args, **kwargs: fft_grad(get_fft2_args, fft2, *args, **kwargs))
+defvjp(ifft2, lambda *args, **kwargs: fft_grad(get_fft2_args, ifft2, *args, **kwargs))
 
-defvjp(fftn, lambda *args, **kwargs: fft_grad(get_fft_args, fftn, *args, **kwargs))
-defvjp(ifftn, lambda *args, **kwargs: fft_grad(get_fft_args, ifftn, *args, **kwargs))
+defvjp(fftn, lambda *args, **kwargs: fft_grad(get_fftn_args, fftn, *args, **kwargs))
+defvjp(ifftn, lambda *args, **kwargs: fft_grad(get_fftn_args, ifftn, *args, **kwargs))
 
 
 def rfft_grad(get_args, irfft_fun, ans, x, *args, **kwargs):
